@@ -65,6 +65,7 @@ func R24(pkgs ...string) func(p *core.Prog) *core.Result {
 				separatorOnce(p, r)
 			}
 			payloadWhole(p, r, in)
+			refValueParity(p, r, in)
 		}
 		if in["sticky"] {
 			stickyFail(p, r, in)
@@ -1283,4 +1284,64 @@ func indexTranslation(p *core.Prog, r *core.Result, in map[string]bool) {
 	if in["json"] {
 		r.Floor("window_index_translations", n, 1)
 	}
+}
+
+// ---- (i) REF-VALUE-PARITY (encoders) ----
+//
+// OnString/OnStringRef and OnKey/OnKeyRef are the same event with the text
+// passed two ways. In each encoder the two members of a pair make the same
+// calls on the encoder with the same constant arguments (major type, marker
+// flag, ...); only the way the text is converted differs.
+func refValueParity(p *core.Prog, r *core.Result, in map[string]bool) {
+	sig := func(f *ssa.Function) string {
+		var calls []string
+		for _, b := range f.Blocks {
+			for _, ins := range b.Instrs {
+				c, ok := ins.(*ssa.Call)
+				if !ok {
+					continue
+				}
+				sc := c.Common().StaticCallee()
+				if sc == nil || sc.Signature.Recv() == nil || len(c.Common().Args) == 0 || c.Common().Args[0] != ssa.Value(f.Params[0]) {
+					continue
+				}
+				var args []string
+				for _, a := range c.Common().Args[1:] {
+					if k, ok := a.(*ssa.Const); ok && k.Value != nil {
+						args = append(args, k.Value.ExactString())
+					} else if isNilConst(a) {
+						args = append(args, "nil")
+					} else {
+						args = append(args, "_")
+					}
+				}
+				calls = append(calls, strings.TrimSuffix(sc.Name(), "Ref")+"("+strings.Join(args, ",")+")")
+			}
+		}
+		sort.Strings(calls)
+		return strings.Join(calls, " ")
+	}
+	n := 0
+	for _, pk := range []string{"json", "cborl", "ubjson"} {
+		if !in[pk] {
+			continue
+		}
+		for _, pr := range [][2]string{{"OnString", "OnStringRef"}, {"OnKey", "OnKeyRef"}} {
+			a := p.LookupFunc(pk, "(*Visitor)."+pr[0])
+			b := p.LookupFunc(pk, "(*Visitor)."+pr[1])
+			if a == nil || b == nil {
+				r.Undecided(".REF-VALUE-PARITY", pk+"."+pr[0], "event pair not found")
+				continue
+			}
+			n++
+			sa, sb := sig(a), sig(b)
+			// a by-reference event that simply forwards to its by-value twin (or the other way round) is trivially equal
+			if sa == strings.TrimSuffix(pr[0], "Ref")+"(_)" || sb == strings.TrimSuffix(pr[0], "Ref")+"(_)" || sa == sb {
+				r.Ok(".REF-VALUE-PARITY", p.Pos(b.Pos()), fmt.Sprintf("%s: %s and %s make the same calls with the same constants", pk, pr[0], pr[1]))
+			} else {
+				r.Fail(".REF-VALUE-PARITY", fmt.Sprintf("%s.(*Visitor).%s~%s", pk, pr[0], pr[1]), p.Pos(b.Pos()), fmt.Sprintf("%s: %s calls [%s] but %s calls [%s]: the same text is written differently (other major type / marker) depending on whether the producer passes it by value or by reference - parsers pass by reference, recordings and Fold by value", pk, pr[0], sa, pr[1], sb), "")
+			}
+		}
+	}
+	r.Floor("ref_value_pairs", n, 2*len([]string{"json", "cborl", "ubjson"}))
 }
